@@ -233,7 +233,8 @@ func UintToBigInt(value uint64) *big.Int {
 	}
 
 	bi := big.NewInt(int64(value >> 1))
-	return bi.Lsh(bi, 1)
+	bi.Lsh(bi, 1)
+	return bi.SetBit(bi, 0, uint(value&1))
 }
 
 func UintToInt(value uint64) (int64, error) {
